@@ -17,7 +17,8 @@ out-of-place, ``is_linear`` == (offset is zero).
 History forms (every operator state, also for ``.adjoint`` and ``.derivative``): (a) the
 out-of-place results of all basis vectors are kept as returned OBJECTS and read again only after
 the last call - they must still be what they were when returned (``kept_result_changed``);
-(b) the one operator object that served all of the above is then driven through the sequence
+(b) (states with unit cell sides and all constructor variants) the one operator object that
+served all of the above is then driven through the sequence
 in-place (non-zero buffer) / out-of-place / in-place into the same, previously used buffer / ...
 and every result must equal that of a freshly built operator (``history_differs_from_fresh``);
 (c) the same for ``op.adjoint`` obtained once and reused.
@@ -557,9 +558,13 @@ def _check_operator(rec, cfg, build, M, b, affine, exact, eps, dual_div=None):
     # 7. history: the one operator object (used above for everything, its adjoint and
     # derivative built and used in between) and its adjoint obtained once, in a mixed
     # in-place / out-of-place sequence with a reused buffer, against freshly built operators
-    _history(rec, name, op, build, exact, eps, cplx)
-    if adj_once is not None:
-        _history(rec, name + '.adjoint', adj_once, lambda: build().adjoint, exact, eps, cplx)
+    # (the sequence does not depend on the cell sides: run it for the unit cell sides and for
+    # every constructor variant, i.e. for every class x method x mode x pad_const x shape)
+    if cfg['h'] == 'unit' or cfg['var'] != DEFAULT_VAR[cfg['kind']]:
+        _history(rec, name, op, build, exact, eps, cplx)
+        if adj_once is not None:
+            _history(rec, name + '.adjoint', adj_once, lambda: build().adjoint, exact, eps,
+                     cplx)
 
 
 # ------------------------------------------------------------------------------------------
